@@ -137,6 +137,28 @@ Section Accounting.
     do 3 eexists. split; [reflexivity|]. repeat split.
     rewrite outcome_partition. apply lines_length.
   Qed.
+
+  (* later input is always reached: a stream of datagrams is processed to its end and every
+     line of every datagram is accounted for *)
+  Theorem parse_stream_total (msgs : list str) : forall m0 e0 b0,
+    exists m e b,
+      parse_stream pf ns msgs m0 e0 b0 = DCounts m e b
+      /\ m + e + b = m0 + e0 + b0 + total_lines msgs.
+  Proof.
+    induction msgs as [|msg r IH]; intros m0 e0 b0; cbn [parse_stream total_lines].
+    - exists m0, e0, b0. split; [reflexivity|lia].
+    - destruct (parse_datagram_total msg) as (m1 & e1 & b1 & -> & _ & _ & _ & Hsum).
+      destruct (IH (m0 + m1) (e0 + e1) (b0 + b1)) as (m & e & b & -> & H).
+      exists m, e, b. split; [reflexivity|]. unfold line_count. lia.
+  Qed.
+
+  Corollary parse_stream_total0 (msgs : list str) :
+    exists m e b,
+      parse_stream pf ns msgs 0 0 0 = DCounts m e b /\ m + e + b = total_lines msgs.
+  Proof.
+    destruct (parse_stream_total msgs 0 0 0) as (m & e & b & H1 & H2).
+    exists m, e, b. split; [exact H1|lia].
+  Qed.
 End Accounting.
 
 (* non-vacuity / sanity of the counting rule *)
